@@ -71,6 +71,10 @@ class C19(Spec):
                             fails.append(Failure("last-write-not-stored", f"{inp}: stored {cur.get(k)}"))
                         if k in prev and k in cur and prev[k]["st"] != "D" and not cur[k]["ver"] > prev[k]["ver"]:
                             fails.append(Failure("newer-version-not-growing", f"{inp}: {prev[k]['ver']} -> {cur[k]['ver']}"))
+                        # "resolved in favour of the most recently issued change": the entry must carry the operation id of the change that was
+                        # stored, or the next stale write is compared with the wrong one (ids are canonical: #NNNN in order of first appearance)
+                        if k in prev and k in cur and cur[k]["op"] == prev[k]["op"]:
+                            fails.append(Failure("stored-write-keeps-an-older-operation-id", f"{inp}: the entry of {k} still carries {cur[k]['op']} after a stored write"))
                         notes = [x for x in rest if x.startswith(f"M 4 changed {k} ")]
                         watching = any(re.match(rf"D w t {k} .*\b4\b", d) for d in dump)
                         if watching and len(notes) != 1:
